@@ -62,6 +62,18 @@ def run_case(case, drv):
                 break
         elif not agrees:
             res.corr_break("contains", "differs from model", detail={"word": w, "impl": got, "model": model[i]})
+    # the word may be any iterable of terminals or strings: tuples, one-shot iterators, generators, Terminal objects
+    from pyformlang.cfg import Terminal
+    shapes = [("tuple", tuple), ("iterator", iter), ("generator", lambda w: (x for x in w)),
+              ("terminals", lambda w: [Terminal(x) for x in w]), ("map", lambda w: map(str, w))]
+    for i, w in enumerate(words[:10]):
+        name, mk = shapes[(i + len(words)) % len(shapes)]
+        got = outcome(lambda w=w, mk=mk: cfg.contains(mk(w)), limit=3.0)
+        res.evals += 1
+        if oracle[i] is not None and got != ("ok", oracle[i]):
+            res.violation("contains", "contains(w) differs from derivability when the word is given as a %s" % name,
+                          detail={"word": w, "impl": got, "spec": oracle[i]})
+            break
     for w in words[:8]:
         got = outcome(lambda w=w: w in cfg, limit=3.0)
         res.evals += 1
